@@ -58,10 +58,12 @@ impl<T> ValuesMatrix<T> {
     }
 
     pub fn slice_iter(&self, skip: GenerationIdx) -> impl Iterator<Item = &[T]> {
+        // `skip` is a generation index (a cursor taken from generations_count()), so it has to be applied
+        // before the empty generations are dropped
         self.values
             .iter()
-            .filter(|generation| !generation.is_empty())
             .skip(skip.into())
+            .filter(|generation| !generation.is_empty())
             .map(|generation| generation.as_ref())
     }
 
